@@ -512,4 +512,320 @@ theorem filterBlock_pfr (c : Ctx) (s s' : Store) (ready : List Wid) (b : Block) 
               have := (c2.trans c3).pend_none (hg1 tr htr)
               rw [he] at this; exact this
 
+-- ------------------------------------------------------------------ THE INVARIANT
+
+/-- the pending-side invariant of a removal in progress (`addrs` = the script hashes of the wallet being removed,
+    `X` = the chain the follower has booked):
+    (a) pending records are stored under their ids (lookup form: the follower and the removal only look records up),
+    (b) an unmined credit of ANOTHER wallet belongs to a PENDING transaction, at an output paying a managed address,
+    (c) `PendOK`: no unmined credit of another wallet belongs to a transaction of `X`,
+    (d) the keys of the pending-credit bucket are pairwise distinct — needed because (c) and the removal
+        (`removeRelevantUnminedCredit` filters the ENTRIES) speak about entries, (b) and the follower about lookups. -/
+structure PCI (c : Ctx) (addrs : List Addr) (s : Store) (X : List Block) : Prop where
+  keyId : ∀ id t, AMap.get s.pending id = some t → t.id = id
+  owned : ∀ id j cr, AMap.get s.pendCred (id, j) = some cr → addrs.contains cr.sh = false →
+    ∃ (t : Tx) (o : Out) (w' : Wid) (ch : Bool), AMap.get s.pending id = some t ∧ t.outs[j]? = some o ∧
+      o.addr = cr.sh ∧ o.cls ≠ .raw ∧ AMap.get c.own o.addr = some (w', ch)
+  pendOK : PendOK addrs s X
+  nodup : KeysNodup s.pendCred
+
+/-- only the keystore view of the context is read -/
+theorem PCI.own {c c' : Ctx} {addrs : List Addr} {s : Store} {X : List Block} (H : PCI c addrs s X)
+    (h : c'.own = c.own) : PCI c' addrs s X :=
+  ⟨H.keyId, fun id j cr hg hs => by rw [h]; exact H.owned id j cr hg hs, H.pendOK, H.nodup⟩
+
+theorem PCI.get_of_mem {c : Ctx} {addrs : List Addr} {s : Store} {X : List Block} (H : PCI c addrs s X)
+    {e : (TxId × Nat) × Credit} (he : e ∈ s.pendCred) : AMap.get s.pendCred e.1 = some e.2 :=
+  (mem_iff_get_of_nodup H.nodup e.1 e.2).1 he
+
+/-- the ids of the chain extended by `b` -/
+theorem mem_ids_snoc {X : List Block} {b : Block} {id : TxId} (h : id ∈ idsOf (occs (X ++ [b]))) :
+    id ∈ idsOf (occs X) ∨ ∃ u ∈ b.txs, u.id = id := by
+  rw [occs_append] at h
+  unfold idsOf at h
+  rw [List.map_append, List.mem_append] at h
+  rcases h with h | h
+  · exact Or.inl h
+  · obtain ⟨oc, hoc, hid⟩ := List.mem_map.1 h
+    obtain ⟨b', hb', hob⟩ := mem_occs.1 hoc
+    rw [List.mem_singleton] at hb'
+    subst hb'
+    obtain ⟨m, hm, _, _⟩ := mem_occsFrom.1 hob
+    exact Or.inr ⟨oc.t, List.mem_of_getElem? hm, hid⟩
+
+-- ------------------------------------------------------------------ preservation: CONNECT
+
+/-- CONNECTING a block `b` on top of the followed chain keeps the invariant, whatever the ready set, provided it
+    holds the owner of every managed address that is not the removed wallet's.
+    `hsame` = ids denote transactions (C09's `ConnOK.ident`), `hfresh` = no transaction record at this block yet
+    (`insertMinedTx` does not take its "already recorded" branch), `hbnd` = the block's ids are pairwise distinct;
+    what the node must answer is in `h` (the database transaction succeeded). -/
+theorem pci_connect {c : Ctx} {addrs : List Addr} {s s' : Store} {X : List Block} {ready : List Wid} {b : Block}
+    {conf : List TxId} (H : PCI c addrs s X) (h : filterBlock c s ready b = .ok (s', conf))
+    (hready : ∀ a w' ch, AMap.get c.own a = some (w', ch) → addrs.contains a = false → ready.contains w' = true)
+    (hsame : ∀ t' ∈ b.txs, ∀ t, AMap.get s.pending t'.id = some t → t = t')
+    (hfresh : ∀ id, AMap.get s.txrecs (id, ⟨b.height, b.id⟩) = none)
+    (hbnd : (b.txs.map (·.id)).Nodup) : PCI c addrs s' (X ++ [b]) := by
+  obtain ⟨fr, hgone⟩ := filterBlock_pfr c s s' ready b conf h (fun u _ => hfresh u.id) hbnd H.keyId hsame
+  have hown : ∀ id j cr, AMap.get s'.pendCred (id, j) = some cr → addrs.contains cr.sh = false →
+      ∃ (t : Tx) (o : Out) (w' : Wid) (ch : Bool), AMap.get s'.pending id = some t ∧ t.outs[j]? = some o ∧
+        o.addr = cr.sh ∧ o.cls ≠ .raw ∧ AMap.get c.own o.addr = some (w', ch) := by
+    intro id j cr hg hsh
+    obtain ⟨t, o, w', ch, hp, ho, ha, hr, hw⟩ := H.owned id j cr (fr.sc.get_some hg) hsh
+    cases hp' : AMap.get s'.pending id with
+    | none =>
+      have hid := H.keyId id t hp
+      have hlt : j < t.outs.length := by
+        rcases Nat.lt_or_ge j t.outs.length with h1 | h1
+        · exact h1
+        · rw [List.getElem?_eq_none h1] at ho; cases ho
+      have := fr.gone t (fun hf => hf) (by rw [hid]; exact hp) (by rw [hid]; exact hp') j hlt
+      rw [hid, hg] at this; cases this
+    | some t2 =>
+      have := fr.pend _ _ hp'
+      rw [hp] at this; cases this
+      exact ⟨t, o, w', ch, rfl, ho, ha, hr, hw⟩
+  have hnd : KeysNodup s'.pendCred := fr.sc.nodup H.nodup
+  refine ⟨fr.keyId H.keyId, hown, ?_, hnd⟩
+  intro e he hsh hmem
+  rcases mem_ids_snoc hmem with h1 | ⟨u, hu, hid⟩
+  · exact H.pendOK e (fr.sc.mem he) hsh h1
+  · have hg : AMap.get s'.pendCred (e.1.1, e.1.2) = some e.2 := (mem_iff_get_of_nodup hnd e.1 e.2).1 he
+    obtain ⟨t, o, w', ch, hp, ho, ha, hr, hw⟩ := hown e.1.1 e.1.2 e.2 hg hsh
+    have hps : AMap.get s.pending u.id = some t := by rw [hid]; exact fr.pend _ _ hp
+    have htu : t = u := hsame u hu t hps
+    subst htu
+    have hpay : PaysReady c.own ready t :=
+      ⟨e.1.2, o, w', ch, ho, hr, hw, hready o.addr w' ch hw (by rw [ha]; exact hsh)⟩
+    have := hgone t hu hpay
+    rw [hid, hp] at this; cases this
+
+-- ------------------------------------------------------------------ preservation: RECEIVE
+
+theorem addUnminedCredits_nodup (s s' : Store) (tr : TxRec) (h : addUnminedCredits s tr = .ok s')
+    (hn : KeysNodup s.pendCred) : KeysNodup s'.pendCred := by
+  unfold addUnminedCredits at h
+  simp only [bind, Except.bind] at h
+  cases hf : List.foldlM (addUnminedCredit tr) s tr.relOut with
+  | error e => rw [hf] at h; cases h
+  | ok s1 =>
+    rw [hf] at h
+    simp only [pure, Except.pure, Except.ok.injEq] at h
+    have h1 : KeysNodup s1.pendCred :=
+      foldlM_ok_inv (fun (a : Store) => KeysNodup a.pendCred) _ _ _ _ hn (fun a x b' ha hx => by
+        rw [(addUnminedCredit_ok tr a b' x hx).1]; exact keysNodup_put ha _ _) hf
+    rw [← h, (gamePut_exact tr.tx.id (gameOuts tr) s1).2.1]
+    exact h1
+
+/-- what insertMemPoolTx + AddCredits(unmined) does to the pending records and the pending credits -/
+theorem addRelevantUnmined_shape (s s' : Store) (tr : TxRec) (h : addRelevantUnmined s tr = .ok s') :
+    ∃ s0 : Store, s0.pendCred = s.pendCred ∧
+      ((s0.pending = s.pending ∧ (AMap.get s.pending tr.tx.id).isSome = true) ∨
+       (s0.pending = AMap.put s.pending tr.tx.id tr.tx ∧ AMap.get s.pending tr.tx.id = none)) ∧
+      (s' = s0 ∨ addUnminedCredits s0 tr = .ok s') := by
+  unfold addRelevantUnmined at h
+  simp only [throw, throwThe, MonadExceptOf.throw, pure, Except.pure] at h
+  split at h
+  · cases h
+  · split at h
+    · rename_i hp
+      refine ⟨s, rfl, Or.inl ⟨rfl, hp⟩, ?_⟩
+      split at h
+      · cases h; exact Or.inl rfl
+      · exact Or.inr h
+    · rename_i hp
+      have hf := insertUnminedInputs_frame { s with pending := AMap.put s.pending tr.tx.id tr.tx } tr
+      simp only [exceptIns, Prod.mk.injEq] at hf
+      refine ⟨insertUnminedInputs { s with pending := AMap.put s.pending tr.tx.id tr.tx } tr, hf.2.1,
+        Or.inr ⟨hf.1, ?_⟩, ?_⟩
+      · cases hg : AMap.get s.pending tr.tx.id with
+        | none => rfl
+        | some x => rw [hg] at hp; simp at hp
+      · split at h
+        · cases h; exact Or.inl rfl
+        · exact Or.inr h
+
+/-- RECEIVING an unconfirmed transaction keeps the invariant (any ready set — it is the store's).
+    `hfresh`: the delivered transaction is not on the followed chain (C09's `fresh`); `hid`: if its id is already
+    pending, it is that transaction (ids denote transactions; AddCredits runs again on an already pending id). -/
+theorem pci_recv {c : Ctx} {addrs : List Addr} {s : Store} {X : List Block} (v : Vol) (t : Tx)
+    (H : PCI c addrs s X) (hfresh : t.id ∉ idsOf (occs X))
+    (hid : ∀ t0, AMap.get s.pending t.id = some t0 → t0 = t) : PCI c addrs (recvTx c s v t).1 X := by
+  by_cases hm : v.mempool.contains t.id = true
+  · rw [recvTx_of_mem c s v t hm]; exact H
+  cases hf : filterTxRel c s t false [] (readyWallets s c.wallets) with
+  | error err => rw [recvTx_of_error c s v t err hf]; exact H
+  | ok r =>
+    cases r with
+    | none => rw [recvTx_of_none c s v t hf]; exact H
+    | some tr =>
+      cases ha : addRelevantUnmined s tr with
+      | error err => rw [recvTx_of_adderr c s v t tr err hf ha]; exact H
+      | ok s' =>
+        rw [recvTx_of_addok c s v t tr s' hm hf ha]
+        have htx : tr.tx = t := filterTxRel_tx c s t false [] _ tr hf
+        have hrel := filterTxRel_relOK c s t false [] _ tr hf
+        obtain ⟨s0, hc0, hp0, hs'⟩ := addRelevantUnmined_shape s s' tr ha
+        rw [htx] at hp0
+        -- the intermediate store
+        have hget0 : ∀ id, AMap.get s0.pending id = if t.id = id then some t else AMap.get s.pending id := by
+          intro id
+          rcases hp0 with ⟨e, hsome⟩ | ⟨e, _⟩
+          · rw [e]
+            split
+            · rename_i he
+              obtain ⟨t0, h0⟩ := Option.isSome_iff_exists.1 hsome
+              rw [← he, h0, hid t0 h0]
+            · rfl
+          · rw [e, AMap.get_put]
+        have H0 : PCI c addrs s0 X := by
+          refine ⟨?_, ?_, ?_, by rw [hc0]; exact H.nodup⟩
+          · intro id t0 hg
+            rw [hget0] at hg
+            split at hg
+            · rename_i he; cases hg; exact he
+            · exact H.keyId id t0 hg
+          · intro id j cr hg hsh
+            rw [hc0] at hg
+            obtain ⟨t0, o, w', ch, hp, rest⟩ := H.owned id j cr hg hsh
+            refine ⟨t0, o, w', ch, ?_, rest⟩
+            rw [hget0]
+            split
+            · rename_i he; rw [← he] at hp; rw [hid t0 hp]
+            · exact hp
+          · intro e he; rw [hc0] at he; exact H.pendOK e he
+        rcases hs' with rfl | hadd
+        · exact H0
+        · obtain ⟨l1, _, _, l4, _⟩ := addUnminedCredits_exact s0 s' tr hadd
+          have hnd := addUnminedCredits_nodup s0 s' tr hadd H0.nodup
+          refine ⟨fun id t0 hg => H0.keyId id t0 (by rw [← l1]; exact hg), ?_, ?_, hnd⟩
+          · intro id j cr hg hsh
+            rw [l1]
+            rcases l4 (id, j) cr hg with hold | ⟨rel, hrel', hk, hcr⟩
+            · exact H0.owned id j cr hold hsh
+            · obtain ⟨r1, r2, r3, _⟩ := hrel rel hrel'
+              simp only [Prod.mk.injEq] at hk
+              refine ⟨t, rel.out, rel.wallet, rel.change, ?_, ?_, ?_, r2, r3⟩
+              · rw [hk.1, htx, hget0, if_pos rfl]
+              · rw [hk.2]; exact r1
+              · rw [hcr]; rfl
+          · intro e he hsh
+            have hg : AMap.get s'.pendCred e.1 = some e.2 := (mem_iff_get_of_nodup hnd e.1 e.2).1 he
+            rcases l4 e.1 e.2 hg with hold | ⟨rel, _, hk, _⟩
+            · exact H0.pendOK e ((mem_iff_get_of_nodup H0.nodup e.1 e.2).2 hold) hsh
+            · rw [hk, htx]; exact hfresh
+
+-- ------------------------------------------------------------------ preservation: a REMOVAL step
+
+/-- no output of `t` pays a managed address outside `addrs` (the output half of `removable`) -/
+def NoOther (own : Own) (addrs : List Addr) (t : Tx) : Prop :=
+  t.outs.any (fun o => o.cls != .raw && !addrs.contains o.addr && (AMap.get own o.addr).isSome) = false
+
+/-- the pending records only shrink, and an erased record pays no other managed address -/
+def PShr (own : Own) (addrs : List Addr) (a a' : Store) : Prop :=
+  (∀ id t, AMap.get a'.pending id = some t → AMap.get a.pending id = some t) ∧
+  (∀ id t, AMap.get a.pending id = some t → AMap.get a'.pending id = none → NoOther own addrs t)
+
+theorem PShr.of_eq {own : Own} {addrs : List Addr} {a a' : Store} (h : a'.pending = a.pending) : PShr own addrs a a' :=
+  ⟨fun id t hg => by rw [← h]; exact hg, fun id t hg hn => by rw [h, hg] at hn; cases hn⟩
+
+theorem PShr.trans {own : Own} {addrs : List Addr} {a b c : Store} (h1 : PShr own addrs a b) (h2 : PShr own addrs b c) :
+    PShr own addrs a c := by
+  refine ⟨fun id t hg => h1.1 id t (h2.1 id t hg), ?_⟩
+  intro id t hg hn
+  cases hb : AMap.get b.pending id with
+  | none => exact h1.2 id t hg hb
+  | some t' =>
+    have := h1.1 id t' hb
+    rw [hg] at this; cases this
+    exact h2.2 id t hb hn
+
+theorem removeUnminedTxs_pshr (own : Own) (s : Store) (addrs : List Addr) (hs : List TxId) :
+    PShr own addrs s (removeUnminedTxs own s addrs hs).1 := by
+  unfold removeUnminedTxs
+  apply foldl_inv (fun (acc : Store × List TxId) => PShr own addrs s acc.1) _ _ _ (PShr.of_eq rfl)
+  intro acc h _ hacc
+  rcases MW.Lemmas.RemoveFrame.unminedStep_cases own addrs acc h with e | ⟨tx, htx, hrem, e⟩
+  · rw [e]; exact hacc
+  · rw [e]
+    refine hacc.trans ⟨?_, ?_⟩
+    · intro id t hg
+      have hg' : AMap.get (AMap.erase acc.1.pending h) id = some t := hg
+      rw [AMap.get_erase] at hg'
+      split at hg'
+      · cases hg'
+      · exact hg'
+    · intro id t hg hn
+      have hn' : AMap.get (AMap.erase acc.1.pending h) id = none := hn
+      rw [AMap.get_erase] at hn'
+      split at hn'
+      · rename_i he
+        rw [← he, htx] at hg; cases hg
+        unfold removable at hrem
+        rw [Bool.and_eq_true, Bool.not_eq_true'] at hrem
+        exact hrem.1
+      · rw [hg] at hn'; cases hn'
+
+/-- RemoveRelevantTx on the pending records -/
+theorem removeRelevantTx_pshr (limit : Nat) (c : Ctx) (s : Store) (addrs : List Addr) (o : StepOut)
+    (hne : addrs ≠ []) (h : removeRelevantTx limit c s addrs = some o) : PShr c.own addrs s o.s := by
+  obtain ⟨uh, del1, del3, s2, del2, _, hr, rfl⟩ := (MW.Lemmas.RemoveStep.removeRelevantTx_pipeline limit c s addrs o hne h).ex
+  have e0 : PShr c.own addrs s (removeRelevantUnminedCredit s addrs).1 := PShr.of_eq (MW.Lemmas.RemoveStep.unminedCredit_pending _ _)
+  have e1 := removeUnminedTxs_pshr c.own (removeRelevantUnminedCredit s addrs).1 addrs uh
+  have e2 : PShr c.own addrs (removeUnminedTxs c.own (removeRelevantUnminedCredit s addrs).1 addrs uh).1
+      (removeRelevantCredit limit (removeUnminedTxs c.own (removeRelevantUnminedCredit s addrs).1 addrs uh).1 addrs).s :=
+    PShr.of_eq (MW.Lemmas.RemoveStep.scan_recs_pending limit _ addrs).2
+  have e3 := removeUnminedTxs_pshr c.own
+    (removeRelevantCredit limit (removeUnminedTxs c.own (removeRelevantUnminedCredit s addrs).1 addrs uh).1 addrs).s addrs
+    (removeRelevantCredit limit (removeUnminedTxs c.own (removeRelevantUnminedCredit s addrs).1 addrs uh).1 addrs).spenders
+  have e4 : PShr c.own addrs (removeUnminedTxs c.own
+      (removeRelevantCredit limit (removeUnminedTxs c.own (removeRelevantUnminedCredit s addrs).1 addrs uh).1 addrs).s addrs
+      (removeRelevantCredit limit (removeUnminedTxs c.own (removeRelevantUnminedCredit s addrs).1 addrs uh).1 addrs).spenders).1
+      (checkBlockRecords s2 del2) := PShr.of_eq (by
+    rw [MW.Lemmas.RemoveStep.blockRecords_proj Store.pending (fun _ _ => rfl)]
+    exact MW.Lemmas.RemoveStep.minedTxs_proj Store.pending (fun _ _ => rfl) c _ addrs _ (s2, del2) hr)
+  exact e0.trans (e1.trans (e2.trans (e3.trans e4)))
+
+/-- ONE RemoveRelevantTx (a removal step that does not finish: `removeStep_parked`) keeps the invariant: the
+    pending-credit bucket is filtered to the entries of the other script hashes; a pending record is erased only if
+    `removable`, and then none of its outputs pays another managed address — by (b) it carries no surviving credit. -/
+theorem pci_rem {limit : Nat} {c : Ctx} {addrs : List Addr} {s : Store} {X : List Block} {o : StepOut}
+    (H : PCI c addrs s X) (h : removeRelevantTx limit c s addrs = some o) : PCI c addrs o.s X := by
+  by_cases hne : addrs = []
+  · unfold removeRelevantTx at h
+    rw [hne] at h
+    simp only [List.isEmpty_nil, if_true, Option.some.injEq] at h
+    rw [← h, hne]; rw [hne] at H; exact H
+  have hpc := (MW.Lemmas.RemoveStep.removeRelevantTx_spec limit c s addrs o hne h).pendCred
+  obtain ⟨p1, p2⟩ := removeRelevantTx_pshr limit c s addrs o hne h
+  have hmem : ∀ e, e ∈ o.s.pendCred → e ∈ s.pendCred := by
+    intro e he; rw [hpc] at he; exact (List.mem_filter.1 he).1
+  have hnd : KeysNodup o.s.pendCred := by
+    unfold KeysNodup at *
+    rw [hpc]
+    exact (List.Sublist.map _ List.filter_sublist).nodup H.nodup
+  refine ⟨fun id t hg => H.keyId id t (p1 id t hg), ?_, fun e he hsh => H.pendOK e (hmem e he) hsh, hnd⟩
+  intro id j cr hg hsh
+  have hg0 : AMap.get s.pendCred (id, j) = some cr :=
+    (mem_iff_get_of_nodup H.nodup _ _).1 (hmem _ (MW.Lemmas.LedgerPending.mem_of_get hg))
+  obtain ⟨t, o', w', ch, hp, ho, ha, hr, hw⟩ := H.owned id j cr hg0 hsh
+  cases hp' : AMap.get o.s.pending id with
+  | some t2 =>
+    have := p1 _ _ hp'
+    rw [hp] at this; cases this
+    exact ⟨t, o', w', ch, rfl, ho, ha, hr, hw⟩
+  | none =>
+    have hno := p2 id t hp hp'
+    unfold NoOther at hno
+    have : t.outs.any (fun o => o.cls != .raw && !addrs.contains o.addr && (AMap.get c.own o.addr).isSome) = true := by
+      apply List.any_eq_true.2
+      refine ⟨o', List.mem_of_getElem? ho, ?_⟩
+      rw [← ha] at hsh
+      rw [hsh, hw]
+      simp [hr]
+    rw [hno] at this; cases this
+
+/-- RESTART: the store is unchanged -/
+theorem pci_restart {c : Ctx} {addrs : List Addr} {s : Store} {X : List Block} (H : PCI c addrs s X) : PCI c addrs s X := H
+
 end MW.Lemmas.RemovePend
